@@ -86,6 +86,8 @@ class Selector:
                 return [(st, v)]
             if n.id == self.regname:
                 return [(st, ("registry",))]
+            if n.id in self.fns:
+                return [(st, ("fn", n.id))]        # a module-level function used as a value (a stage in a table of stages)
             return [(st, ("?", n.id))]
         if isinstance(n, ast.Tuple) or isinstance(n, ast.List):
             outs = [(st, [])]
@@ -384,7 +386,21 @@ class Selector:
                     res.append((s, None))
                 else:
                     s = s.copy()
-                    s.events.append(("report", norm(n)[:80], n))
+                    # a report the user sees: print / write, or a warning of a category that Python's DEFAULT filters show.
+                    # DeprecationWarning (outside __main__), PendingDeprecationWarning, ImportWarning and ResourceWarning are
+                    # ignored by default; logging below WARNING is dropped by the default logger configuration.
+                    hidden = None
+                    if short == "warn":
+                        cat = n.args[1] if len(n.args) > 1 else next((k.value for k in n.keywords if k.arg == "category"), None)
+                        if cat is not None and norm(cat).split(".")[-1] in ("ImportWarning", "DeprecationWarning", "PendingDeprecationWarning",
+                                                                             "ResourceWarning"):
+                            hidden = norm(cat).split(".")[-1]
+                    if short in ("debug", "info") and norm(n.func).startswith("logging."):
+                        hidden = "logging." + short
+                    if hidden is None:
+                        s.events.append(("report", norm(n)[:80], n))
+                    else:
+                        s.events.append(("hidden-report", hidden, n))
                     res.append((s, ("none",)))
             return res
         if short in ("str", "repr", "format", "lower", "upper", "strip", "get") and f not in self.fns:
@@ -401,8 +417,9 @@ class Selector:
         if short in ("reversed", "sorted", "list", "tuple", "iter") and len(n.args) >= 1 and isinstance(n.args[0], ast.Name) \
                 and n.args[0].id == self.regname:
             return [(st, ("registry",) if short in ("list", "tuple", "iter") else ("registry", short))]
-        if isinstance(n.func, ast.Name) and n.func.id in self.fns and not n.keywords:
-            fn = self.fns[n.func.id]
+        fnv = st.get(n.func.id) if isinstance(n.func, ast.Name) else None
+        if isinstance(n.func, ast.Name) and (n.func.id in self.fns or (fnv is not None and fnv[0] == "fn" and fnv[1] in self.fns)) and not n.keywords:
+            fn = self.fns[fnv[1]] if (fnv is not None and fnv[0] == "fn") else self.fns[n.func.id]
             if len(fn.args.args) != len(n.args) or fn.args.vararg or fn.args.kwarg:
                 raise Unsupported("call of %s with unsupported arguments" % fn.name)
             outs = [(st, [])]
@@ -631,6 +648,30 @@ class Selector:
                             fin.append((s3, st3, p3))
                 out = fin
             return out
+        if isinstance(s, ast.For) and isinstance(s.iter, (ast.Tuple, ast.List)) and 1 <= len(s.iter.elts) <= 6 and not s.orelse and all(
+                isinstance(e, (ast.Name, ast.Constant)) for e in s.iter.elts):
+            # a loop over a short literal of stage functions / constants: the iterations one after the other
+            cur = [(st, "normal", None)]
+            for e in s.iter.elts:
+                nxt = []
+                for s1, status, payload in cur:
+                    if status != "normal":
+                        nxt.append((s1, status, payload))
+                        continue
+                    for s2, v in self.ev(e, s1):
+                        if v is None:
+                            nxt.append((s2, "raise", None))
+                            continue
+                        s3 = self.assign(s.target, v, s2, s)
+                        for s4, st4, p4 in self.block(s.body, s3):
+                            if st4 == "continue":
+                                nxt.append((s4, "normal", None))
+                            elif st4 == "break":
+                                nxt.append((s4, "broken", None))
+                            else:
+                                nxt.append((s4, st4, p4))
+                cur = nxt
+            return [(s1, "normal" if status == "broken" else status, payload) for s1, status, payload in cur]
         if isinstance(s, ast.For):
             return self.loop(s, st)
         if isinstance(s, ast.With):
